@@ -10,6 +10,7 @@ import Driver.Config
 import Driver.Flow
 import Driver.Trap
 import Driver.LuaApi
+import Driver.WinCount
 /-
   Driver: one request per line on stdin, one answer per line on stdout.
   Unknown or malformed lines answer `bad` (never a default).
@@ -41,6 +42,7 @@ def handle (line : String) : String :=
   else if l.startsWith "preload " then handlePreload l
   else if l.startsWith "load2 " then handleLoad2 l
   else if l.startsWith "machcount " then handleMachCount l
+  else if l.startsWith "wincount " then handleWinCount l
   else if l.startsWith "trapglobals " then handleTrapGlobals l
   else if l.startsWith "longfault " then handleLongFault l
   else if l.startsWith "dumpspec " then handleDumpSpec l
